@@ -3911,6 +3911,26 @@ impl GlobalInferenceCtx<'_> {
                     // TODO: handle the error properly, and test the error case
                     dummy_env.const_ty(param.ty).unwrap()
                 } else {
+                    // the type of a comptime parameter may name earlier comptime parameters
+                    // (`comptime T: type, comptime v: T`), whose values differ from call to call:
+                    // what `const_ty` cached for this header in our area belongs to an earlier call
+                    let stale = self
+                        .bodies
+                        .descendants(
+                            param.ty,
+                            hir::DescentOpts::Types {
+                                include_local_value: &|_| false,
+                            },
+                        )
+                        .filter_map(|descendant| match descendant {
+                            Descendant::PreExpr(expr) => Some(expr),
+                            _ => None,
+                        })
+                        .collect_vec();
+                    for expr in stale {
+                        self.tys[self.loc].meta_tys.remove(expr);
+                    }
+
                     self.const_ty(param.ty)?
                 };
 
